@@ -511,11 +511,16 @@ type vfStallReader struct {
 	pos     int
 	chunk   int
 	release chan struct{}
+	delay   time.Duration // the peer's first bytes arrive this late
 }
 
 func (r *vfStallReader) Read(p []byte) (int, error) {
 	if len(p) == 0 {
 		return 0, nil
+	}
+	if r.delay > 0 && r.pos == 0 && len(r.data) > 0 {
+		time.Sleep(r.delay)
+		r.delay = 0
 	}
 	if r.pos >= len(r.data) {
 		<-r.release
@@ -537,6 +542,9 @@ type vfC09Stall struct {
 	PayloadLen int `json:"payloadLen"`
 	Delivered  int `json:"delivered"` // bytes of the frame delivered before the peer stalls
 	Chunk      int `json:"chunk"`
+	// Late: the delivered bytes arrive late (after 80% of the period) but in time; the configured period still bounds
+	// the whole call, it does not start over when the prefix is complete
+	Late bool `json:"late"`
 }
 
 func TestVerifC09Stall(t *testing.T) {
@@ -553,11 +561,36 @@ func TestVerifC09Stall(t *testing.T) {
 			default:
 				k = 4 + rapid.IntRange(0, n-1).Draw(t, "inPayload")
 			}
-			return vfC09Stall{PayloadLen: n, Delivered: k, Chunk: rapid.IntRange(1, 7).Draw(t, "chunk")}
+			return vfC09Stall{PayloadLen: n, Delivered: k, Chunk: rapid.IntRange(1, 7).Draw(t, "chunk"), Late: k >= 1 && rapid.IntRange(0, 9).Draw(t, "late") == 0}
 		},
 		Check: func(c vfC09Stall) error {
 			mu.Lock()
 			defer mu.Unlock()
+			if c.Late {
+				// "within the configured period": one-sided, with generous slack and three attempts (a loaded machine
+				// delays timers; only a call that overruns every time is judged)
+				const period, slack = 400 * time.Millisecond, 200 * time.Millisecond
+				var worst time.Duration
+				for attempt := 0; attempt < 3; attempt++ {
+					frame := make([]byte, 4+c.PayloadLen)
+					binary.BigEndian.PutUint32(frame, uint32(c.PayloadLen))
+					r := &vfStallReader{data: frame[:c.Delivered], chunk: c.Chunk, release: make(chan struct{}), delay: period * 8 / 10}
+					start := time.Now()
+					err := ReadDelimitedMessage(r, &conformancev1.ClientCompatResponse{}, "verif peer", period, vfMaxSize)
+					elapsed := time.Since(start)
+					close(r.release)
+					if err == nil || !strings.Contains(err.Error(), "timed out") {
+						return verifkit.Violf("stall-text", "peer stalled after %d late bytes: expected a timeout error, got: %v", c.Delivered, err)
+					}
+					if elapsed <= period+slack {
+						return nil
+					}
+					if attempt == 0 || elapsed < worst {
+						worst = elapsed
+					}
+				}
+				return verifkit.Violf("stall-overrun", "peer delivered %d bytes after %v and then stalled: the timeout error took at least %v in three attempts, configured period %v", c.Delivered, period*8/10, worst, period)
+			}
 			frame := make([]byte, 4+c.PayloadLen)
 			binary.BigEndian.PutUint32(frame, uint32(c.PayloadLen))
 			r := &vfStallReader{data: frame[:c.Delivered], chunk: c.Chunk, release: make(chan struct{})}
